@@ -110,6 +110,13 @@ theorem C10_cancel_prefix (c : Cfg) (k : Nat) (hc : CancelCfg c k) (hd : DomainL
         openedCount done < k ∧ k ≤ openedCount (done ++ blk) ∧ OnePath blk) :=
   run_cancel_prefix c k hc hd roots
 
+/-- … and as a function: the attempts, the error and the visited-inode count are exactly what
+`cancelOutcome` (Spec/WalkCount.lean: "every `handleFile` call up to and including the one holding the k-th
+`Extract`, nothing after it, failure iff a call remained") reads off the specification's trace. -/
+theorem C10_cancel_outcome (c : Cfg) (k : Nat) (hc : CancelCfg c k) (hd : DomainLaw c.giMatch) (roots : List (Node × Faults)) :
+    ((run c roots).calls, (run c roots).err, (run c roots).visited) = cancelOutcome k 0 (traceScan c roots) :=
+  run_cancel_outcome c k hc hd roots
+
 /-! Non-vacuity (specification side only).  A tree with 5 inodes to visit (also 5 when directory `d` cannot be
 opened: the failure is reported by a second call and `b` is not reached; 6 + 1 with a failing end-of-listing
 read of the root and a second root, since the counter is shared) against a limit of 3 / of 5. -/
@@ -136,6 +143,16 @@ example : CancelCfg (exK 1) 1 ∧ DomainLaw (exK 1).giMatch := ⟨⟨rfl, rfl, r
 example : traceScan (exK 1) [(exTree2, {})] =
     [[]] ++ [⟨0, ["a"], 1, true⟩, ⟨1, ["a"], 1, true⟩] :: [[⟨0, ["b"], 2, true⟩, ⟨1, ["b"], 2, true⟩]] ∧
     openedCount (mustExtract (exK 1) [(exTree2, {})]) = 4 := by decide
+/-- the theorem at work: both extractors get `a`, nothing for `b`, the scan fails; root, `a` and `b` are counted -/
+example : (run (exK 1) [(exTree2, {})]).calls = [⟨0, ["a"], 1, true⟩, ⟨1, ["a"], 1, true⟩] ∧
+    (run (exK 1) [(exTree2, {})]).err = .ctx ∧ (run (exK 1) [(exTree2, {})]).visited = 3 := by
+  have h := C10_cancel_outcome (exK 1) 1 ⟨rfl, rfl, rfl, rfl, by decide, fun _ _ => rfl⟩ (fun _ _ _ _ _ => rfl) [(exTree2, {})]
+  have h' : cancelOutcome 1 0 (traceScan (exK 1) [(exTree2, {})]) = ([⟨0, ["a"], 1, true⟩, ⟨1, ["a"], 1, true⟩], .ctx, 3) := by decide
+  rw [h'] at h
+  simp only [Prod.mk.injEq] at h
+  exact h
+/-- cancellation inside the LAST attempt of the LAST file: nothing remained, the scan succeeds -/
+example : cancelOutcome 4 0 (traceScan (exK 4) [(exTree2, {})]) = (mustExtract (exK 4) [(exTree2, {})], .none, 3) := by decide
 /-- never reached: 4 `Extract` calls owed, cancellation in the 5th -/
 example : openedCount (mustExtract (exK 5) [(exTree2, {})]) < 5 := by decide
 
